@@ -228,9 +228,19 @@ class Edits:
         self.src, self.s, self.e = src, s, e
         self.ed = []  # (s, e, order, text, origin)
         self._n = 0
+        self.sealed = []  # ranges replaced wholesale (R43): edits inside them are void
+
+    def seal(self, s, e, text, origin):
+        """replace [s, e) wholesale: earlier and later edits that lie inside the range are dropped"""
+        self.ed = [x for x in self.ed if not (s <= x[0] and x[1] <= e)]
+        self.sealed.append((s, e))
+        self._n += 1
+        self.ed.append((s, e, self._n, text, origin))
 
     def replace(self, s, e, text, origin, prio=0):
         assert self.s <= s <= e <= self.e, (self.s, s, e, self.e)
+        if any(a <= s and e <= b and (s, e) != (a, b) for a, b in self.sealed) or any((a, b) == (s, e) and s < e for a, b in self.sealed):
+            return
         self._n += 1
         self.ed.append((s, e, self._n + prio * 1000000, text, origin))
 
@@ -468,7 +478,7 @@ class Unit:
                 item["external"] = True
                 item["imported_from"] = ou
                 item["loops"], item["ats"], item["arounds"], item["closurefns"], item["callmap"], item["letty"] = {}, [], [], {}, [], {}
-                item["opts"] = [o for o in oi.get("opts", []) if o in ("inherent", "free") or o.startswith("as=")]
+                item["opts"] = [o for o in oi.get("opts", []) if o in ("inherent", "free") or o.startswith("as=") or o.startswith("selfty=")]
                 item["clauses"] = []
                 try:
                     _kf = {k["clause"] for k in json.load(open(os.path.join(VERIF, "known_findings.json"))).get("findings", [])}
@@ -492,6 +502,11 @@ class Unit:
             elif name == "letty":
                 a, b = full.split(":", 1)
                 item["letty"][a.strip()] = b.strip()
+            elif name == "letinit":
+                # @letinit <var> => <expr>: the initialiser of `let <var> = ...` is dropped and replaced (external library calls
+                # + iterator adapters that produce a value whose contract is assumed); reported as an extraction drop
+                a, b = [x.strip() for x in full.split("=>", 1)]
+                item.setdefault("letinit", {})[a] = b
             elif name == "iterloop":
                 item.setdefault("iterloops", []).extend(full.split())
             elif name == "callfn":
@@ -777,7 +792,14 @@ class Gen:
         if src.pre_rules and ("R20", src.rel) not in self._consts:
             self._consts.add(("R20", src.rel))
             self.rewrites["R20-local-macro"] = self.rewrites.get("R20-local-macro", 0) + src.pre_rules
-        impl, fn = find_fn(src, it["name"])
+        try:
+            impl, fn = find_fn(src, it["name"])
+        except Inconclusive:
+            if "optional" in it["opts"]:
+                # `optional`: a helper that only a repaired tree has; without it its callers are checked as they stand
+                self.absent = getattr(self, "absent", []) + [it["name"]]
+                return
+            raise
         if not self.vac and not it["external"]:
             self.auto_consts(src, fn)
         ed = Edits(src, fn["s"], fn["e"])
@@ -896,6 +918,13 @@ class Gen:
                 # `inherent`: the method of a trait impl is emitted as an inherent method (trait dispatch is dropped)
                 hdr = "impl " + impl["a"]["self_ty"]
             self.emit(hdr.strip() + " {\n", ("src-header", it["rel"], impl["s"]))
+        # a provided method of a trait (`selfty=T`): emitted as an inherent method of the stand-in type T (R45)
+        selfty = [o[7:] for o in it["opts"] if o.startswith("selfty=")]
+        if impl is not None and impl["k"] == "Trait":
+            if not selfty:
+                raise Inconclusive(f"unsupported construct: {it['name']} is a provided trait method; sidecar needs selfty=<type>")
+            self.emit("impl " + selfty[0] + " {\n", ("rule", "R45"))
+            self.fired("R45")
         for text, origin in ed.segments():
             # expand anchor placeholders left by rewrite rules
             while True:
@@ -908,7 +937,7 @@ class Gen:
                     self.emit(t2, o2)
                 text = text[at + len(tok):]
             self.emit(text, origin)
-        if impl is not None and impl["k"] == "Impl" and close_hdr:
+        if impl is not None and (impl["k"] == "Impl" and close_hdr or impl["k"] == "Trait"):
             self.emit("\n}\n", ("glue",))
         else:
             self.emit("\n", ("glue",))
@@ -928,6 +957,17 @@ class Gen:
         T = src.text
         loops = []  # loop sites in source order: (node, kind)
         closure_locals = {}  # name -> Local node (for R4)
+
+        # R43: @letinit — initialiser replaced by a trusted helper expression
+        for var, text in it.get("letinit", {}).items():
+            hits = [n for n in walk(body) if n["k"] == "Local" and kid(n, "pat")["a"].get("ident") == var and kid(n, "init") is not None]
+            if len(hits) != 1:
+                raise Inconclusive(f"lost anchor: {it['name']}: {len(hits)} `let {var} = ..` statements, sidecar expects 1")
+            init = kid(hits[0], "init")
+            ed.seal(init["s"], init["e"], text, ("rule", "R43"))
+            init["c"], init["k"] = [], "Sealed"  # no other rule looks inside
+            self.dropped.append(f"{it['name']}: initialiser of `let {var}` ({init['e'] - init['s']} bytes: {norm(T(init))[:80]}…) replaced by `{text}`")
+            self.fired("R43")
 
         for n in walk(body):
             k = n["k"]
@@ -1038,8 +1078,7 @@ class Gen:
                     self.fired("R30")
                 elif itx["k"] == "Path" and itx["a"]["path"] in it.get("iterloops", []):
                     # R41: `for X in IT { B }` over a user-defined iterator whose `next` is under contract -> `while let Some(X) = it.next()`
-                    if any(x["k"] in ("Continue", "Break") for x in walk(b)):
-                        raise Inconclusive(f"unsupported construct: break/continue in an iterator for-loop at {src.rel}:{src.line_of(n['s'])}")
+                    # (`break` / `continue` mean the same in the `while let` form)
                     ed.replace(n["s"], p["s"], f"let mut __iter{idx} = {T(itx)};\n        while let Some(", ("rule", "R41"))
                     ed.replace(p["e"], b["s"], f") = __iter{idx}.next()", ("rule", "R41"))
                     for t, o in pieces:
@@ -1575,6 +1614,30 @@ class Gen:
             pend.append((");\n    }\n    __v\n}\n", ("rule", "R4")))
             self._pending.extend(pend)
 
+        # R44: `match E { "lit" => A, .., v => B }` over a str -> `{ let v = E; if __str_eq(v, "lit") { A } else .. { B } }`
+        # (E, the literals and the arm bodies stay verbatim; Verus has no string-literal patterns)
+        for n in walk(body):
+            if n["k"] != "Match":
+                continue
+            arms = kids(n, "arm")
+            if len(arms) < 2 or not all(kid(a, "pat")["k"] == "PatLit" and T(kid(a, "pat")).startswith('"') for a in arms[:-1]):
+                continue
+            lastp = kid(arms[-1], "pat")
+            if lastp["k"] not in ("PatIdent", "PatWild") or any(c["r"] == "guard" for a in arms for c in a["c"]):
+                continue
+            var = lastp["a"]["ident"] if lastp["k"] == "PatIdent" else "__m"
+            scr = kid(n, "scrutinee")
+            ed.replace(n["s"], scr["s"], "{ let " + var + " = ", ("rule", "R44"))
+            pos = scr["e"]
+            for i, a in enumerate(arms[:-1]):
+                b = kid(a, "body")
+                ed.replace(pos, b["s"], ("; " if i == 0 else " else ") + "if __str_eq(" + var + ", " + T(kid(a, "pat")) + ") { ", ("rule", "R44"))
+                pos = b["e"]
+                ed.insert(pos, " }", ("rule", "R44"))
+            b = kid(arms[-1], "body")
+            ed.replace(pos, b["s"], " else { ", ("rule", "R44"))
+            ed.replace(b["e"], n["e"], " } }", ("rule", "R44"))
+            self.fired("R44")
         # R10: let type ascriptions
         for n in walk(body):
             if n["k"] == "Local":
@@ -1594,7 +1657,7 @@ class Gen:
                     A, B = kid(n, "left"), kid(n, "right")
                     if want_lhs is not None and norm(T(A)) != want_lhs:
                         continue
-                    ed.replace(n["s"], A["s"], helper + "(", ("rule", "R19"))
+                    ed.replace(n["s"], A["s"], (helper[:-1] + "(&") if helper.endswith("&") else (helper + "("), ("rule", "R19"))
                     ed.replace(A["e"], B["s"], ", ", ("rule", "R19"))
                     ed.replace(B["e"], n["e"], ")", ("rule", "R19"))
                     hit += 1
@@ -1606,6 +1669,8 @@ class Gen:
             hit = 0
             want_rc = None
             nargs = 0
+            opt_map = meth.endswith("?")  # `m? => f`: the call may be absent (code that only a repaired tree has)
+            meth = meth.rstrip("?")
             mm = re.match(r"^(\w+)/(\d+)$", meth)
             if mm:
                 meth, nargs = mm.group(1), int(mm.group(2))
@@ -1631,6 +1696,8 @@ class Gen:
                     hit += 1
                     self.fired("R11")
             if not hit:
+                if opt_map:
+                    continue
                 raise Inconclusive(f"lost anchor: {it['name']}: no call .{meth}()")
 
         # R25: `reveal_strlit` for every plain string literal of the body (a reveal, not an assumption)
@@ -1930,7 +1997,7 @@ class Gen:
                   "#![allow(unused_imports, unused_variables, unused_mut, dead_code, unused_assignments, unused_parens, non_snake_case)]\n"
                   "use vstd::prelude::*;\nverus! {\n", ("glue",))
         for u in self.unit.uses:
-            p = os.path.join(VERIF, "contracts", u)
+            p = os.path.join(os.path.dirname(self.unit.path), u)
             self.emit(open(p).read() + "\n", ("file", u))
         # consecutive @fn items of the same trait impl are emitted inside ONE impl block
         fnitems = self.unit.items
